@@ -57,6 +57,8 @@ func main() {
 		err = core.RunAclZ(w, *seed, *tier, *replay)
 	case "acla":
 		err = core.RunAclA(w, *seed, *tier, *replay)
+	case "wire":
+		err = core.RunWire(w, *seed, *tier, *replay)
 	case "gen-facts":
 		err = core.GenFacts(*leanDir)
 	default:
